@@ -1,4 +1,6 @@
--- stub: component `alloc` not built yet
+import Driver.Alloc
+open Driver
+
 def main : IO UInt32 := do
-  IO.eprintln "driver-alloc: not implemented"
-  return 2
+  runComponent Alloc.init Alloc.step
+  return 0
